@@ -66,18 +66,6 @@ def CanonSame (env : Env) (q : Query) : Prop :=
     Outcome.sim (refText env (fuel + 1) (q.encode Gen.escapeTable)).1
       (refQ env fuel q (q.encode Gen.escapeTable) .none none).1
 
-/-- a class of queries closed under everything an evaluation descends into: predecessors, link
-arguments of the last action, and every query obtained by parsing a text (relative links and
-sub-evaluations re-parse text) -/
-structure Closed (env : Env) (C : Query → Prop) : Prop where
-  pred : ∀ q p r, C q → q.predecessor = some (p, r) → C p
-  link : ∀ q p h a lq pos, C q → q.predecessor = some (p, some (.transform h [a] none)) →
-    Param.link lq pos ∈ a.params → C lq
-  text : ∀ t q, parse env.dec t = some q → C q
-
-/-- link arguments of a parameter list are in the class -/
-def LinksIn (C : Query → Prop) (ps : List Param) : Prop := ∀ lq pos, Param.link lq pos ∈ ps → C lq
-
 /-! ### syntactic classes -/
 
 /-- a query that is a single resource segment (not evaluated by this model) -/
